@@ -1,1 +1,315 @@
 use super::*;
+use crate::verif_common::*;
+use crate::error::RepeError;
+
+// ===========================================================================
+// C03: the shared dispatch core (route / dispatch_view / dispatch) and the three
+// compositions the transports build from it.
+// ===========================================================================
+static mut INVOCATIONS: u32 = 0;
+static mut OUTCOME: u8 = 0; // 0 = Ok (query-less), 1 = Ok with its own query, 2..=5 = Err(variant)
+const OWN_Q: [u8; 1] = [b'Z'];
+
+/// Handler whose outcome is chosen by the harness and which counts invocations.
+struct Scripted;
+
+fn scripted_result(id: u64) -> Result<Message, RepeError> {
+    unsafe {
+        INVOCATIONS += 1;
+        match OUTCOME {
+            0 => {
+                let mut m = Message::builder().id(id).body_bytes(vec![7u8]).build();
+                m.header.ec = 0;
+                Ok(m)
+            }
+            1 => Ok(Message::builder().id(id).query_bytes(OWN_Q.to_vec()).body_bytes(vec![8u8]).build()),
+            2 => Err(RepeError::VersionMismatch(3)),
+            3 => Err(RepeError::BufferTooSmall { need: 9, have: 1 }),
+            4 => Err(RepeError::UnexpectedBodyFormat { expected: crate::constants::BodyFormat::Json, got: 9 }),
+            _ => Err(RepeError::ServerError { code: ErrorCode::ApplicationErrorBase, message: String::new() }),
+        }
+    }
+}
+
+impl HandlerErased for Scripted {
+    fn handle(&self, req: &Message) -> Result<Message, RepeError> {
+        scripted_result(req.header.id)
+    }
+    fn handle_view(&self, view: &MessageView, _ctx: &CallContext) -> Result<Message, RepeError> {
+        scripted_result(view.header.id)
+    }
+}
+
+fn outcome_code(o: u8) -> u32 {
+    match o {
+        0 | 1 => 0,
+        2 => ErrorCode::VersionMismatch as u32,
+        3 => ErrorCode::ParseError as u32,
+        4 => ErrorCode::InvalidBody as u32,
+        _ => ErrorCode::ApplicationErrorBase as u32,
+    }
+}
+
+/// Lookup stub: exactly "/a" is registered (lookup itself is decided in C07).
+fn router_get_stub(_r: &Router, path: &str) -> Option<Arc<dyn HandlerErased>> {
+    if path.as_bytes().len() == 2 && path.as_bytes()[0] == b'/' && path.as_bytes()[1] == b'a' {
+        Some(Arc::new(Scripted))
+    } else {
+        None
+    }
+}
+
+/// `Display for RepeError` (thiserror) drives core::fmt; the error TEXT is not
+/// part of the property.
+fn display_stub(_e: &RepeError, _f: &mut std::fmt::Formatter<'_>) -> std::fmt::Result {
+    Ok(())
+}
+
+/// Request pieces. The query is a per-instance CONSTANT array that the view
+/// borrows directly (parsing it back out of a frame would route the bytes through
+/// a memcpy and CBMC would treat them as symbolic again: UTF-8 validation of even
+/// one symbolic byte costs minutes, and three dispatch compositions each validate
+/// the query). Every header field and the body byte stay symbolic.
+struct Req<const Q: usize> {
+    header: Header,
+    query: [u8; Q],
+    body: [u8; 1],
+}
+
+fn any_request<const Q: usize>(q: [u8; Q]) -> Req<Q> {
+    let mut h = any_header();
+    h.spec = crate::constants::REPE_SPEC;
+    kani::assume(h.notify <= 1); // the quantifier is notify 0/1
+    h.query_length = Q as u64;
+    h.body_length = 1;
+    h.length = (48 + Q + 1) as u64;
+    Req { header: h, query: q, body: [kani::any()] }
+}
+
+/// What the statement says the response must be.
+struct Expected {
+    respond: bool,
+    dispatched: bool,
+    ec: u32,
+}
+
+fn expected<const Q: usize>(r: &Req<Q>, outcome: u8) -> Expected {
+    let h = &r.header;
+    let q = &r.query[..];
+    let notify = h.notify == 1;
+    if h.version != 1 {
+        return Expected { respond: !notify, dispatched: false, ec: ErrorCode::VersionMismatch as u32 };
+    }
+    if h.query_format != 1 {
+        // not a JSON pointer query (raw binary or unknown code)
+        return Expected { respond: !notify, dispatched: false, ec: ErrorCode::InvalidQuery as u32 };
+    }
+    if from_utf8_ascii_stub(q).is_err() {
+        return Expected { respond: !notify, dispatched: false, ec: ErrorCode::InvalidQuery as u32 };
+    }
+    let registered = Q == 2 && q[0] == b'/' && q[1] == b'a';
+    if !registered {
+        return Expected { respond: !notify, dispatched: false, ec: ErrorCode::MethodNotFound as u32 };
+    }
+    Expected { respond: !notify, dispatched: true, ec: outcome_code(outcome) }
+}
+
+/// Compose a transport's framing on top of a query-less / own-query response.
+fn effective_query<'a>(resp: &'a Message, req_query: &'a [u8]) -> &'a [u8] {
+    crate::message::response_echo_query(resp, req_query)
+}
+
+fn dispatch_core<const Q: usize, const OUTCOME_K: u8>() {
+    // Query bytes are symbolic over the domain on which the from_utf8 stub is exact.
+    let q: [u8; Q] = kani::any();
+    let mut qi = 0;
+    while qi < Q {
+        kani::assume(ascii_or_never_valid(q[qi]));
+        qi += 1;
+    }
+    let r = any_request::<Q>(q);
+    // The handler outcome is a per-instance constant: a symbolic RepeError variant
+    // drags the drop glue of every variant (boxed dyn errors) into the encoding.
+    let outcome: u8 = OUTCOME_K;
+    unsafe {
+        OUTCOME = outcome;
+        INVOCATIONS = 0;
+    }
+    let want = expected(&r, outcome);
+    let router = Router::new();
+    let view = MessageView { header: r.header, query: &r.query[..], body: &r.body };
+    let req_query = &r.query[..];
+
+    // --- path 1: blocking / async TCP: route_request_view + borrowed echo ------------
+    let resp1 = route_request_view(&router, &view);
+    let inv1 = unsafe { INVOCATIONS };
+    assert!(resp1.is_some() == want.respond, "response/notify discipline violated");
+    assert!(inv1 == want.dispatched as u32, "handler not invoked exactly once iff dispatched");
+    if let Some(m) = &resp1 {
+        assert!(m.header.id == r.header.id, "response does not carry the request id");
+        assert!(m.header.ec == want.ec, "wrong error code");
+        assert!(m.header.notify == 0);
+        let eq = effective_query(m, req_query);
+        if want.dispatched && outcome == 1 {
+            assert!(bytes_eq(eq, &OWN_Q), "handler-chosen query not preserved");
+        } else {
+            assert!(bytes_eq(eq, req_query), "request query not echoed");
+        }
+    }
+
+    // --- path 2: WebSocket inline: route + dispatch_view + stamp (borrowed) ----------
+    unsafe { INVOCATIONS = 0; }
+    let resp2 = match route(&router, &view.header, view.query) {
+        RouteOutcome::Dispatch { handler, notify, path } => {
+            let ctx = CallContext::detached(path);
+            let out = dispatch_view(handler.as_ref(), &view, &ctx, notify);
+            std::mem::forget(handler);
+            out
+        }
+        RouteOutcome::Reject { notify, code, message } => {
+            (!notify).then(|| create_error_response_unstamped_view(&view, code, message))
+        }
+    };
+    let inv2 = unsafe { INVOCATIONS };
+    // --- path 3: WebSocket off-reader: route + dispatch on an owned copy + stamp (owned)
+    unsafe { INVOCATIONS = 0; }
+    let owned = Message { header: r.header, query: r.query.to_vec(), body: r.body.to_vec() };
+    // route on the constant query bytes (the owned copy holds the same bytes)
+    let resp3 = match route(&router, &owned.header, &r.query[..]) {
+        RouteOutcome::Dispatch { handler, notify, path } => {
+            let ctx = CallContext::detached(path);
+            let out = dispatch(handler.as_ref(), &owned, &ctx, notify);
+            std::mem::forget(handler);
+            out
+        }
+        RouteOutcome::Reject { notify, code, message } => {
+            (!notify).then(|| crate::message::create_error_response_like(&owned, code, message))
+        }
+    };
+    let inv3 = unsafe { INVOCATIONS };
+    assert!(inv2 == inv1 && inv3 == inv1, "transports disagree on handler invocation");
+    assert!(resp2.is_some() == resp1.is_some() && resp3.is_some() == resp1.is_some(), "transports disagree on whether to respond");
+    if let (Some(a), Some(b), Some(c)) = (&resp1, &resp2, &resp3) {
+        let (qa, qb, qc) = (effective_query(a, req_query), effective_query(b, req_query), effective_query(c, req_query));
+        assert!(a.header.id == b.header.id && b.header.id == c.header.id);
+        assert!(a.header.ec == b.header.ec && b.header.ec == c.header.ec, "transports report different error codes");
+        assert!(a.header.body_format == b.header.body_format && b.header.body_format == c.header.body_format);
+        assert!(a.header.query_format == b.header.query_format && b.header.query_format == c.header.query_format);
+        assert!(bytes_eq(qa, qb) && bytes_eq(qb, qc), "transports echo different queries");
+        assert!(bytes_eq(&a.body, &b.body) && bytes_eq(&b.body, &c.body), "transports return different bodies");
+    }
+    kani::cover!((want.dispatched && want.respond) || Q != 2);
+    kani::cover!((want.dispatched && !want.respond) || Q != 2);
+    kani::cover!(!want.dispatched && want.respond && want.ec == ErrorCode::MethodNotFound as u32);
+    kani::cover!(!want.dispatched && want.respond && want.ec == ErrorCode::InvalidQuery as u32);
+    kani::cover!(!want.dispatched && want.respond && want.ec == ErrorCode::VersionMismatch as u32);
+    kani::cover!(!want.dispatched && !want.respond);
+    std::mem::forget(resp1);
+    std::mem::forget(resp2);
+    std::mem::forget(resp3);
+    std::mem::forget(owned);
+    std::mem::forget(router);
+}
+
+macro_rules! c03_core {
+    ($name:ident, $q:expr, $outcome:expr) => {
+        #[kani::proof]
+        #[kani::stub(crate::server::Router::get, router_get_stub)]
+        #[kani::stub(std::fmt::format, crate::verif_common::format_stub)]
+        #[kani::stub(std::str::from_utf8, crate::verif_common::from_utf8_ascii_stub)]
+        #[kani::stub(std::hash::RandomState::new, crate::verif_common::random_state_stub)]
+        #[kani::stub(<crate::error::RepeError as std::fmt::Display>::fmt, display_stub)]
+        #[kani::unwind(70)]
+        fn $name() {
+            dispatch_core::<$q, $outcome>();
+        }
+    };
+}
+
+//@ name: c03_dispatch_q2_ok
+//@ prop: C03
+//@ tier: quick
+//@ clause: a request with notify clear gets exactly one response carrying its id and (unless the handler chose its own) its query; a notify gets none; the handler runs exactly once iff dispatched, never when rejected; the error code is VersionMismatch / InvalidQuery (format or UTF-8) / MethodNotFound / the handler's result or error code; the three transport compositions (TCP borrowed, WebSocket inline, WebSocket off-reader) yield the same response fields
+//@ funcs: server_request::route; route_request_view; dispatch_view; dispatch; message::create_error_response_unstamped_view; create_error_response_like; response_echo_query; RepeError::to_error_code
+//@ symbolic: version, notify (0/1), query_format (all u16), id, reserved, ec, body_format, body byte, the 2 query byte(s) (registered "/a", unregistered, and non-UTF-8 queries all inside)
+//@ bounds: |query| = 2, each byte ASCII or >= 0xf8 (the domain on which the UTF-8 stub is exact); handler outcome = Ok, query-less response (per-instance constant: a symbolic RepeError variant drags every variant's drop glue into the encoding); |body| = 1; lookup stubbed to "exactly /a is registered"; unwind 70
+//@ oracle: expected (respond?, dispatched?, error code, echoed query) computed from the statement; pairwise equality across the three compositions
+//@ stubs: Router::get -> "/a" only (lookup is C07); std::str::from_utf8 -> ASCII check (exact on the assumed byte domain); alloc::fmt::format -> stub; <RepeError as Display>::fmt -> writes nothing; RandomState::new -> fixed keys
+c03_core!(c03_dispatch_q2_ok, 2, 0);
+
+//@ name: c03_dispatch_q2_own_query
+//@ prop: C03
+//@ tier: quick
+//@ clause: a request with notify clear gets exactly one response carrying its id and (unless the handler chose its own) its query; a notify gets none; the handler runs exactly once iff dispatched, never when rejected; the error code is VersionMismatch / InvalidQuery (format or UTF-8) / MethodNotFound / the handler's result or error code; the three transport compositions (TCP borrowed, WebSocket inline, WebSocket off-reader) yield the same response fields
+//@ funcs: server_request::route; route_request_view; dispatch_view; dispatch; message::create_error_response_unstamped_view; create_error_response_like; response_echo_query; RepeError::to_error_code
+//@ symbolic: version, notify (0/1), query_format (all u16), id, reserved, ec, body_format, body byte, the 2 query byte(s) (registered "/a", unregistered, and non-UTF-8 queries all inside)
+//@ bounds: |query| = 2, each byte ASCII or >= 0xf8 (the domain on which the UTF-8 stub is exact); handler outcome = Ok with a handler-set response query (per-instance constant: a symbolic RepeError variant drags every variant's drop glue into the encoding); |body| = 1; lookup stubbed to "exactly /a is registered"; unwind 70
+//@ oracle: expected (respond?, dispatched?, error code, echoed query) computed from the statement; pairwise equality across the three compositions
+//@ stubs: Router::get -> "/a" only (lookup is C07); std::str::from_utf8 -> ASCII check (exact on the assumed byte domain); alloc::fmt::format -> stub; <RepeError as Display>::fmt -> writes nothing; RandomState::new -> fixed keys
+c03_core!(c03_dispatch_q2_own_query, 2, 1);
+
+//@ name: c03_dispatch_q2_err_version
+//@ prop: C03
+//@ tier: quick
+//@ clause: a request with notify clear gets exactly one response carrying its id and (unless the handler chose its own) its query; a notify gets none; the handler runs exactly once iff dispatched, never when rejected; the error code is VersionMismatch / InvalidQuery (format or UTF-8) / MethodNotFound / the handler's result or error code; the three transport compositions (TCP borrowed, WebSocket inline, WebSocket off-reader) yield the same response fields
+//@ funcs: server_request::route; route_request_view; dispatch_view; dispatch; message::create_error_response_unstamped_view; create_error_response_like; response_echo_query; RepeError::to_error_code
+//@ symbolic: version, notify (0/1), query_format (all u16), id, reserved, ec, body_format, body byte, the 2 query byte(s) (registered "/a", unregistered, and non-UTF-8 queries all inside)
+//@ bounds: |query| = 2, each byte ASCII or >= 0xf8 (the domain on which the UTF-8 stub is exact); handler outcome = Err(VersionMismatch) (per-instance constant: a symbolic RepeError variant drags every variant's drop glue into the encoding); |body| = 1; lookup stubbed to "exactly /a is registered"; unwind 70
+//@ oracle: expected (respond?, dispatched?, error code, echoed query) computed from the statement; pairwise equality across the three compositions
+//@ stubs: Router::get -> "/a" only (lookup is C07); std::str::from_utf8 -> ASCII check (exact on the assumed byte domain); alloc::fmt::format -> stub; <RepeError as Display>::fmt -> writes nothing; RandomState::new -> fixed keys
+c03_core!(c03_dispatch_q2_err_version, 2, 2);
+
+//@ name: c03_dispatch_q2_err_server
+//@ prop: C03
+//@ tier: quick
+//@ clause: a request with notify clear gets exactly one response carrying its id and (unless the handler chose its own) its query; a notify gets none; the handler runs exactly once iff dispatched, never when rejected; the error code is VersionMismatch / InvalidQuery (format or UTF-8) / MethodNotFound / the handler's result or error code; the three transport compositions (TCP borrowed, WebSocket inline, WebSocket off-reader) yield the same response fields
+//@ funcs: server_request::route; route_request_view; dispatch_view; dispatch; message::create_error_response_unstamped_view; create_error_response_like; response_echo_query; RepeError::to_error_code
+//@ symbolic: version, notify (0/1), query_format (all u16), id, reserved, ec, body_format, body byte, the 2 query byte(s) (registered "/a", unregistered, and non-UTF-8 queries all inside)
+//@ bounds: |query| = 2, each byte ASCII or >= 0xf8 (the domain on which the UTF-8 stub is exact); handler outcome = Err(ServerError{ApplicationErrorBase}) (per-instance constant: a symbolic RepeError variant drags every variant's drop glue into the encoding); |body| = 1; lookup stubbed to "exactly /a is registered"; unwind 70
+//@ oracle: expected (respond?, dispatched?, error code, echoed query) computed from the statement; pairwise equality across the three compositions
+//@ stubs: Router::get -> "/a" only (lookup is C07); std::str::from_utf8 -> ASCII check (exact on the assumed byte domain); alloc::fmt::format -> stub; <RepeError as Display>::fmt -> writes nothing; RandomState::new -> fixed keys
+c03_core!(c03_dispatch_q2_err_server, 2, 5);
+
+//@ name: c03_dispatch_q2_err_buffer
+//@ prop: C03
+//@ tier: thorough
+//@ clause: a request with notify clear gets exactly one response carrying its id and (unless the handler chose its own) its query; a notify gets none; the handler runs exactly once iff dispatched, never when rejected; the error code is VersionMismatch / InvalidQuery (format or UTF-8) / MethodNotFound / the handler's result or error code; the three transport compositions (TCP borrowed, WebSocket inline, WebSocket off-reader) yield the same response fields
+//@ funcs: server_request::route; route_request_view; dispatch_view; dispatch; message::create_error_response_unstamped_view; create_error_response_like; response_echo_query; RepeError::to_error_code
+//@ symbolic: version, notify (0/1), query_format (all u16), id, reserved, ec, body_format, body byte, the 2 query byte(s) (registered "/a", unregistered, and non-UTF-8 queries all inside)
+//@ bounds: |query| = 2, each byte ASCII or >= 0xf8 (the domain on which the UTF-8 stub is exact); handler outcome = Err(BufferTooSmall) (per-instance constant: a symbolic RepeError variant drags every variant's drop glue into the encoding); |body| = 1; lookup stubbed to "exactly /a is registered"; unwind 70
+//@ oracle: expected (respond?, dispatched?, error code, echoed query) computed from the statement; pairwise equality across the three compositions
+//@ stubs: Router::get -> "/a" only (lookup is C07); std::str::from_utf8 -> ASCII check (exact on the assumed byte domain); alloc::fmt::format -> stub; <RepeError as Display>::fmt -> writes nothing; RandomState::new -> fixed keys
+c03_core!(c03_dispatch_q2_err_buffer, 2, 3);
+
+//@ name: c03_dispatch_q2_err_format
+//@ prop: C03
+//@ tier: thorough
+//@ clause: a request with notify clear gets exactly one response carrying its id and (unless the handler chose its own) its query; a notify gets none; the handler runs exactly once iff dispatched, never when rejected; the error code is VersionMismatch / InvalidQuery (format or UTF-8) / MethodNotFound / the handler's result or error code; the three transport compositions (TCP borrowed, WebSocket inline, WebSocket off-reader) yield the same response fields
+//@ funcs: server_request::route; route_request_view; dispatch_view; dispatch; message::create_error_response_unstamped_view; create_error_response_like; response_echo_query; RepeError::to_error_code
+//@ symbolic: version, notify (0/1), query_format (all u16), id, reserved, ec, body_format, body byte, the 2 query byte(s) (registered "/a", unregistered, and non-UTF-8 queries all inside)
+//@ bounds: |query| = 2, each byte ASCII or >= 0xf8 (the domain on which the UTF-8 stub is exact); handler outcome = Err(UnexpectedBodyFormat) (per-instance constant: a symbolic RepeError variant drags every variant's drop glue into the encoding); |body| = 1; lookup stubbed to "exactly /a is registered"; unwind 70
+//@ oracle: expected (respond?, dispatched?, error code, echoed query) computed from the statement; pairwise equality across the three compositions
+//@ stubs: Router::get -> "/a" only (lookup is C07); std::str::from_utf8 -> ASCII check (exact on the assumed byte domain); alloc::fmt::format -> stub; <RepeError as Display>::fmt -> writes nothing; RandomState::new -> fixed keys
+c03_core!(c03_dispatch_q2_err_format, 2, 4);
+
+//@ name: c03_dispatch_q0
+//@ prop: C03
+//@ tier: quick
+//@ clause: a request with notify clear gets exactly one response carrying its id and (unless the handler chose its own) its query; a notify gets none; the handler runs exactly once iff dispatched, never when rejected; the error code is VersionMismatch / InvalidQuery (format or UTF-8) / MethodNotFound / the handler's result or error code; the three transport compositions (TCP borrowed, WebSocket inline, WebSocket off-reader) yield the same response fields
+//@ funcs: server_request::route; route_request_view; dispatch_view; dispatch; message::create_error_response_unstamped_view; create_error_response_like; response_echo_query; RepeError::to_error_code
+//@ symbolic: version, notify (0/1), query_format (all u16), id, reserved, ec, body_format, body byte, the 0 query byte(s) (registered "/a", unregistered, and non-UTF-8 queries all inside)
+//@ bounds: |query| = 0, each byte ASCII or >= 0xf8 (the domain on which the UTF-8 stub is exact); handler outcome = irrelevant (never dispatched) (per-instance constant: a symbolic RepeError variant drags every variant's drop glue into the encoding); |body| = 1; lookup stubbed to "exactly /a is registered"; unwind 70
+//@ oracle: expected (respond?, dispatched?, error code, echoed query) computed from the statement; pairwise equality across the three compositions
+//@ stubs: Router::get -> "/a" only (lookup is C07); std::str::from_utf8 -> ASCII check (exact on the assumed byte domain); alloc::fmt::format -> stub; <RepeError as Display>::fmt -> writes nothing; RandomState::new -> fixed keys
+c03_core!(c03_dispatch_q0, 0, 0);
+
+//@ name: c03_dispatch_q1
+//@ prop: C03
+//@ tier: thorough
+//@ clause: a request with notify clear gets exactly one response carrying its id and (unless the handler chose its own) its query; a notify gets none; the handler runs exactly once iff dispatched, never when rejected; the error code is VersionMismatch / InvalidQuery (format or UTF-8) / MethodNotFound / the handler's result or error code; the three transport compositions (TCP borrowed, WebSocket inline, WebSocket off-reader) yield the same response fields
+//@ funcs: server_request::route; route_request_view; dispatch_view; dispatch; message::create_error_response_unstamped_view; create_error_response_like; response_echo_query; RepeError::to_error_code
+//@ symbolic: version, notify (0/1), query_format (all u16), id, reserved, ec, body_format, body byte, the 1 query byte(s) (registered "/a", unregistered, and non-UTF-8 queries all inside)
+//@ bounds: |query| = 1, each byte ASCII or >= 0xf8 (the domain on which the UTF-8 stub is exact); handler outcome = irrelevant (never dispatched) (per-instance constant: a symbolic RepeError variant drags every variant's drop glue into the encoding); |body| = 1; lookup stubbed to "exactly /a is registered"; unwind 70
+//@ oracle: expected (respond?, dispatched?, error code, echoed query) computed from the statement; pairwise equality across the three compositions
+//@ stubs: Router::get -> "/a" only (lookup is C07); std::str::from_utf8 -> ASCII check (exact on the assumed byte domain); alloc::fmt::format -> stub; <RepeError as Display>::fmt -> writes nothing; RandomState::new -> fixed keys
+c03_core!(c03_dispatch_q1, 1, 0);
